@@ -41,7 +41,7 @@ type MemIOFS struct {
 type MemFS struct {
 	rootNode        *dirNode    // rootNode represent the root directory of the file system.
 	err             avfs.Errors // err regroups errors depending on the OS emulated.
-	volumes         volumes     // volumes contains the volume names (for Windows only).
+	volumes         *volumes    // volumes contains the volume names (for Windows only), shared by the sub file systems.
 	dirMode         fs.FileMode // dirMode is the default fs.FileMode for a directory.
 	fileMode        fs.FileMode // fileMode is de default fs.FileMode for a file.
 	lastId          *uint64     // lastId is the last unique id used to identify files uniquely.
@@ -102,8 +102,12 @@ type node interface {
 	size() int64
 }
 
-// volumes are the volumes names for Windows.
-type volumes map[string]*dirNode
+// volumes are the volumes names for Windows and their root directories.
+// A nil *volumes has no volume.
+type volumes struct {
+	roots map[string]*dirNode // roots are the root directories of the volumes by volume name.
+	mu    sync.RWMutex        // mu is the RWMutex used to access roots.
+}
 
 // dirNode is the structure for a directory.
 type dirNode struct {
